@@ -31,7 +31,7 @@ def load_module(name, source):
 def norm(brief):
     """Outcome image compared across a restart: value text, or the failure classes.  WHICH of several missing
     keys a failure names depends on set iteration order, i.e. on the interpreter's hash seed (DESIGN 2.10 item 2)."""
-    return brief[:3] if brief and brief[0] == "err" else brief
+    return brief[:2] if brief and brief[0] == "err" else brief
 
 
 def world_over(objs):
